@@ -152,3 +152,26 @@ Proof.
   - intros v it c Hin Hc. pose proof (items_ok _ v Hs) as Hf. rewrite Forall_forall in Hf.
     specialize (Hf it Hin). unfold item_ok in Hf. rewrite Hc in Hf. exact Hf.
 Qed.
+
+(* Count and ErrorOrNil of an Append result, in the terms of the property: Count is the number of contained errors and
+   ErrorOrNil is nil exactly when there are none *)
+Lemma append_result_shape st acc args : match snd (append st acc args) with VRef _ | VTypedNilErr => True | _ => False end.
+Proof.
+  unfold append.
+  destruct (fold_left add_arg args _) as [st' [a|]]; exact I.
+Qed.
+
+Theorem append_count st acc args : val_ok st acc -> (forall v, In v args -> val_ok st v /\ not_acc acc v) ->
+  let '(st', r) := append st acc args in
+  count st' r = Z.of_nat (length (items st acc) + length (flat_map (items st) args)) /\
+  (error_or_nil_is_nil st' r = true <-> items st acc ++ flat_map (items st) args = []).
+Proof.
+  intros Ha Hargs. pose proof (append_spec st acc args Ha Hargs) as H. pose proof (append_result_shape st acc args) as Hr.
+  destruct (append st acc args) as [st' r]. cbn [snd] in Hr. destruct H as (Hi & Hn & _).
+  split.
+  - unfold count. rewrite Hi, app_length. reflexivity.
+  - destruct r as [| | |id|a]; try contradiction.
+    + cbn [error_or_nil_is_nil]. cbn [is_nil_result] in Hn. tauto.
+    + cbn [error_or_nil_is_nil]. cbn [items] in Hi. rewrite Hi.
+      destruct (items st acc ++ flat_map (items st) args); split; intro; congruence.
+Qed.
